@@ -161,24 +161,14 @@ class Normaliser:
             groups[find(a)] = find(b)
 
         def names_of_display(e):
-            if isinstance(e, ast.Name):
-                return [e.id]
-            if isinstance(e, (ast.Tuple, ast.List, ast.Set)):
-                return [nm for x in e.elts for nm in names_of_display(x)]
-            if isinstance(e, ast.IfExp):
-                return names_of_display(e.body) + names_of_display(e.orelse)
-            if isinstance(e, ast.BoolOp):
-                return [nm for x in e.values for nm in names_of_display(x)]
-            if isinstance(e, ast.Starred):
-                return names_of_display(e.value)
-            return []
+            return sorted(_may_alias(e))
         # a display `c = (x, y)` makes a new object *holding* x and y; only when elements are taken out of c again (iteration, subscript,
         # unpacking) can a mutation through what was taken out reach x or y
         taken_apart = set()
         for n in ast.walk(fn):
             if isinstance(n, (ast.For, ast.comprehension)) and isinstance(n.iter, ast.Name):
                 taken_apart.add(n.iter.id)
-            elif isinstance(n, ast.Subscript) and isinstance(n.value, ast.Name):
+            elif isinstance(n, (ast.Subscript, ast.Attribute)) and isinstance(n.value, ast.Name) and isinstance(n.ctx, ast.Load):
                 taken_apart.add(n.value.id)
             elif isinstance(n, ast.Starred) and isinstance(n.value, ast.Name):
                 taken_apart.add(n.value.id)
@@ -206,9 +196,11 @@ class Normaliser:
                                     for b_ in names_of_display(ve):
                                         link(a_, b_)
                         else:
+                            # d[k] = x / o.a = x: x is now held by d / o; matters when things are taken out of d / o again
                             for a_ in names_of_display(t):
-                                for b_ in vn:
-                                    link(a_, b_)
+                                if a_ in taken_apart:
+                                    for b_ in vn:
+                                        link(a_, b_)
             elif isinstance(n, (ast.For, ast.comprehension)):
                 for a_ in names_of_display(n.target):
                     for b_ in names_of_display(n.iter):
@@ -1084,9 +1076,9 @@ class Normaliser:
                     env[other] = ast.Name(id=OP + other, ctx=ast.Load())
         eff.extend(self.emit("bind", [value], lambda fs: ("bind", self.vform(nm), fs[0])))
         self.invalidate({OP + nm})
-        for x in ast.walk(value):
-            if isinstance(x, ast.Name) and x.id != OP + nm:
-                self.alias_link(OP + nm, x.id)   # the new value may be (part of) an object those names denote
+        for other in _may_alias(value):
+            if other != OP + nm:
+                self.alias_link(OP + nm, other)   # the new value may be (part of) an object that name denotes
         env[nm] = ast.Name(id=OP + nm, ctx=ast.Load())
 
     def assign(self, target, value, env, eff, pure):
@@ -1142,6 +1134,9 @@ class Normaliser:
             eff.extend(self.emit("store", [t2, value], lambda fs: ("store", fs[0], fs[1])))
             if r is not None:
                 self.invalidate({r})
+                for other in _may_alias(value):
+                    if other != r:
+                        self.alias_link(r, other)   # the container now holds that object
             return
         raise Unsupported("assignment target %s" % type(target).__name__)
 
@@ -2614,7 +2609,7 @@ def normal_form(fn, consts=None, helpers=None, methods=None):
            defaults, tuple(nz.exo(d, {}) for d in fn.decorator_list))
     eff, _ = nz.block(_body(fn), {}, ())
     is_gen = any(isinstance(x, (ast.Yield, ast.YieldFrom)) for x in ast.walk(fn))
-    return (sig, _renumber(_prune_evals(_drop_dead_binds(tuple(strip_tail(eff, "return")) if not is_gen else tuple(eff)))))
+    return (sig, _renumber(_prune_evals(_drop_dead_binds(_drop_alias_binds(tuple(strip_tail(eff, "return")) if not is_gen else tuple(eff))))))
 
 
 def _int_const(x):
@@ -2842,6 +2837,108 @@ def _prune_evals(effs):
             x = tuple(out)
         return x
     return rec(effs)
+
+
+def _may_alias(e) -> set:
+    """names whose object the value of the expression may be, contain or be part of: a name, an attribute / element of it, either arm of a conditional or
+    of and/or, the elements of a display, whatever a call is given (its result may be one of its arguments or hold them); arithmetic, comparisons,
+    comprehensions and literals make new objects"""
+    if isinstance(e, ast.Name):
+        return {e.id}
+    if isinstance(e, (ast.Attribute, ast.Subscript, ast.Starred)):
+        return _may_alias(e.value)
+    if isinstance(e, ast.IfExp):
+        return _may_alias(e.body) | _may_alias(e.orelse)
+    if isinstance(e, ast.BoolOp):
+        return set().union(*[_may_alias(v) for v in e.values])
+    if isinstance(e, (ast.Tuple, ast.List, ast.Set)):
+        return set().union(*[_may_alias(v) for v in e.elts]) if e.elts else set()
+    if isinstance(e, ast.Dict):
+        return set().union(*[_may_alias(v) for v in e.values]) if e.values else set()
+    if isinstance(e, ast.Call):
+        out = set()
+        if isinstance(e.func, ast.Attribute):
+            out |= _may_alias(e.func.value)
+        for a in e.args:
+            out |= _may_alias(a)
+        for k in e.keywords:
+            out |= _may_alias(k.value)
+        return out
+    return set()
+
+
+def _drop_alias_binds(effs):
+    """`bind vA = vB` where each of the two numbered variables is bound exactly once in the whole form, neither inside a loop nor as a loop / with
+    target: vA is just another name for vB -- it is replaced by vB and the binding dropped"""
+    def is_var(x):
+        return isinstance(x, tuple) and len(x) == 2 and x[0] == "v" and isinstance(x[1], int)
+
+    for _ in range(20):
+        count, in_loop, targets = {}, set(), set()
+
+        def note_targets(t):
+            if is_var(t):
+                targets.add(t[1])
+            elif isinstance(t, tuple):
+                for y in t:
+                    note_targets(y)
+
+        def scan(x, loop):
+            if not isinstance(x, tuple) or not x:
+                return
+            if x[0] == "bind" and len(x) == 3 and is_var(x[1]):
+                count[x[1][1]] = count.get(x[1][1], 0) + 1
+                if loop:
+                    in_loop.add(x[1][1])
+                scan(x[2], loop)
+                return
+            if x[0] == "for" and len(x) == 5:
+                note_targets(x[1])
+                scan(x[2], loop)
+                scan(x[3], True)
+                scan(x[4], loop)
+                return
+            if x[0] == "while" and len(x) == 4:
+                scan(x[1], True)
+                scan(x[2], True)
+                scan(x[3], loop)
+                return
+            if x[0] == "with" and len(x) == 3:
+                for it in x[1]:
+                    if isinstance(it, tuple) and len(it) == 2:
+                        note_targets(it[1])
+            for y in x:
+                scan(y, loop)
+        scan(effs, False)
+        found = None
+
+        def find(x):
+            nonlocal found
+            if found is not None or not isinstance(x, tuple) or not x:
+                return
+            if x[0] == "bind" and len(x) == 3 and is_var(x[1]) and is_var(x[2]) and x[1] != x[2]:
+                a, b = x[1][1], x[2][1]
+                if count.get(a) == 1 and count.get(b) == 1 and a not in in_loop and b not in in_loop and a not in targets and b not in targets:
+                    found = (a, b)
+                    return
+            for y in x:
+                find(y)
+        find(effs)
+        if found is None:
+            return effs
+        a, b = found
+
+        def repl(x):
+            if isinstance(x, tuple):
+                if is_var(x) and x[1] == a:
+                    return ("v", b)
+                y = tuple(repl(z) for z in x)
+                if y and all(isinstance(z, tuple) for z in y):
+                    y = tuple(z for z in y if not (len(z) == 3 and z[0] == "bind" and z[1] == z[2]))
+                return y
+            return x
+        effs = repl(effs)
+    return effs
 
 
 def _form_pure(x) -> bool:
